@@ -384,6 +384,8 @@ def classify(sub, is_mismatch):
     case, sched = desc["case"], desc["sched"]
     kind = case["kind"]
     if kind == "islands":
+        if case.get("evolve"):
+            return "calibration_outcome", dict(clause="calibration_outcome", scheduler=sched)
         return "island_order", dict(clause="island_order")
     if kind == "bfe":
         return "bfe", dict(clause="bfe", scheduler=sched)
